@@ -20,7 +20,7 @@ VARIABLES ereg,     \* u -> record, see above
           fired     \* ghost: u -> number of callbacks since the last add/enable/disable
 eVars == <<ereg, busy, fired>>
 
-EvNoReg == [present |-> FALSE, ev |-> 0, fl |-> 0, dis |-> FALSE, owner |-> -1, inflight |-> FALSE, armedBy |-> "none", early |-> 0]
+EvNoReg == [present |-> FALSE, ev |-> 0, fl |-> 0, dis |-> FALSE, owner |-> -1, inflight |-> FALSE, armedBy |-> "none", early |-> 0, pdis |-> FALSE]
 
 (* tpt_ev_validate: the registrations that must be refused *)
 EvMalformed(ev, fl, ff) ==
@@ -48,11 +48,13 @@ EvPost(u, t, op, ev, fl, ff, thr, rc, tpd) ==
                    /\ ereg' = [ereg EXCEPT ![u] = [present |-> ~(@.early > 0 /\ fl % 2 = 1), ev |-> ev, fl |-> fl,
                                                    dis |-> (@.early > 0 /\ (fl \div 2) % 2 = 1),
                                                    owner |-> IF op = OP_ADD THEN thr ELSE @.owner,
-                                                   inflight |-> @.inflight, armedBy |-> "post", early |-> 0]]
+                                                   inflight |-> @.inflight, armedBy |-> "post", early |-> 0,
+                                                   pdis |-> IF t = @.owner THEN FALSE ELSE @.dis]]
                    /\ fired' = [fired EXCEPT ![u] = 0]
               [] op = OP_DISABLE ->
                    /\ ereg[u].present
-                   /\ ereg' = [ereg EXCEPT ![u].dis = TRUE, ![u].fl = IF ereg[u].ev \in {0, 1} THEN fl ELSE @,
+                   /\ ereg' = [ereg EXCEPT ![u].dis = TRUE, ![u].pdis = IF t = ereg[u].owner THEN TRUE ELSE ereg[u].dis,
+                                           ![u].fl = IF ereg[u].ev \in {0, 1} THEN fl ELSE @,
                                            ![u].inflight = IF t = ereg[u].owner THEN FALSE ELSE @]
                    /\ fired' = [fired EXCEPT ![u] = 0]         \* the flags are re-recorded: counting restarts
               [] op = OP_DEL ->
@@ -65,8 +67,11 @@ EvPost(u, t, op, ev, fl, ff, thr, rc, tpd) ==
 (* loop.gate: the owner's loop received a kernel report for u and tests TPDATA_F_DISABLED.
    `dis`/`set` are what the loop read; they may be stale only while another thread is inside a call on u *)
 EvGate(t, u, dis, set) ==
-    /\ (busy[u] \in {-1, t} => dis = ereg[u].dis)       \* (`set` is informational: tpdata of a persistent read event is all zero)
-    /\ ereg' = [ereg EXCEPT ![u].inflight = ~dis]
+    \* the loop reads tpdata without synchronisation: it may still see the value from before the latest call of
+    \* ANOTHER thread (pdis) - the hook logs after the read; (`set` is informational: tpdata of a persistent read
+    \* registration is all zero)
+    /\ (busy[u] \in {-1, t} => dis \in {ereg[u].dis, ereg[u].pdis})
+    /\ ereg' = [ereg EXCEPT ![u].inflight = ~dis, ![u].pdis = ereg[u].dis]
     /\ UNCHANGED <<busy, fired>>
 
 (* loop.cb: the callback is invoked on thread t with event kind ev and result flags *)
